@@ -77,4 +77,14 @@ TEXTS = {
         "level_text": "Exploration: >10^6 read/seek histories and >2*10^4 hostile archives per quick run; Miri and valgrind shards for the extraction copy loop in thorough.",
         "level_note": "archives are 'stored' zip files from the harness' own writer; compression paths of the zip crate are dependency code",
     },
+    "C17": {
+        "technique": T + "fault enumeration: every single fault at every package position of generated transfers, oracle = ground truth completeness + byte comparison of saved / auto-saved files + sandbox directory listing",
+        "level_text": "Fault enumeration: the complete single-fault set at every position for the size x package-size grid, >10^5 faulted runs per quick check, each with the observable outcomes (tree state, save command, auto-save directory) compared with the ground truth.",
+        "level_note": "multi-fault combinations are only sampled (through the randomly faulted concurrent transfers)",
+    },
+    "C19": {
+        "technique": T + "conservation monitor with an allowed-change mask over plugins_process_msgs for every subset/order of the real decoding plugins; anonymisation: function/injectivity monitors + differential lifecycle detection (original vs anonymised re-export)",
+        "level_text": "Exploration: >10^5 plugin pipelines and >2*10^4 anonymisation runs per quick check; every traffic class is required to actually change texts (coverage floor), so the plugins are demonstrably decoding while the monitor watches.",
+        "level_note": "decoding correctness of the plugins (the produced text) is not part of the property and not checked",
+    },
 }
